@@ -64,6 +64,21 @@ func refVandermondeParity(data [][]byte, e int) []byte {
 	return out
 }
 
+// What the previous successful call restored (the slices themselves, and copies): a later call - of any coder - must
+// not alter them.
+var c07Prev, c07PrevWant [][]byte
+var c07PrevWhat string
+
+func c07CheckPrev(r *core.Rec, now string) {
+	for i := range c07Prev {
+		if !bytes.Equal(c07Prev[i], c07PrevWant[i]) {
+			r.Violatef("restored-shards-altered-by-a-later-call", "shards restored by [%s] were altered by the later call [%s]", c07PrevWhat, now)
+			break
+		}
+	}
+	c07Prev, c07PrevWant = nil, nil
+}
+
 // c07Try runs one reconstruction and judges it. missD / missP are bit masks.
 func c07Try(r *core.Rec, coder rsec16.Coder, kind string, d, p int, orig, parity [][]byte, missD, missP []bool) {
 	// the shard lists handed to the coder are windows into longer lists (as when the lists of several stripes lie
@@ -108,6 +123,7 @@ func c07Try(r *core.Rec, coder rsec16.Coder, kind string, d, p int, orig, parity
 	}
 	r.AddTransitions(1)
 	what := fmt.Sprintf("%s d=%d p=%d len=%d missing data %v, available parity %v", kind, d, p, len(orig[0]), missCols, avail)
+	c07CheckPrev(r, what)
 	sameSlot := func(a, b []byte) bool {
 		if a == nil || b == nil {
 			return a == nil && b == nil
@@ -212,6 +228,13 @@ func c07Try(r *core.Rec, coder rsec16.Coder, kind string, d, p int, orig, parity
 	if err == nil && !exact {
 		r.Violatef("reconstruct-nil-but-wrong", "%s: nil error but restored shards differ from the originals", what)
 		return
+	}
+	if err == nil && nMissD > 0 && d <= 64 {
+		c07PrevWhat = what
+		for _, i := range missCols {
+			c07Prev = append(c07Prev, data[i])
+			c07PrevWant = append(c07PrevWant, append([]byte{}, data[i]...))
+		}
 	}
 	if nMissD == 0 {
 		if err != nil {
@@ -388,6 +411,11 @@ func c07Gen(g *core.Gen) {
 		}
 	}
 	g.Emit(&c07Case{Kind: "limits"})
+	for _, l := range []int{2, 4, 34} {
+		for gg := 1; gg <= 2; gg++ {
+			g.Emit(&c07Case{Kind: "history", Len: l, G: gg, K: 2})
+		}
+	}
 	// the widest Cauchy codes the constructor accepts (data + parity = 65535): two lost data shards whose indices
 	// differ by each power of two (and the symmetric choice of two parity rows in the tallest code), so that no
 	// numbering of the evaluation points that repeats with a period is left unseen
@@ -550,6 +578,41 @@ func c07Run(ci interface{}, r *core.Rec) {
 		r.AddStates(1)
 		r.Outcome(fmt.Sprintf("explicit %v %v", c.MissD, c.AvailP))
 		r.NontrivialCase()
+	case "history":
+		// a call that fails on a singular system, then successful calls of other coders: what each of them restored stays
+		// as it is while the later ones run
+		type step struct {
+			kind   string
+			d, p   int
+			md, ap []int
+		}
+		steps := []step{{"vandermonde", 10, 3856, []int{1, 9}, []int{0, 3855}}, {"cauchy", 4, 2, []int{0, 3}, []int{0, 1}}, {"cauchy", 4, 2, []int{1, 2}, []int{0, 1}}, {"vandermonde", 5, 3, []int{4}, []int{2}}, {"cauchy", 3, 2, []int{0, 1}, []int{0, 1}}}
+		for rot := 0; rot < c.K+1; rot++ {
+			for _, st := range steps {
+				coder, ok := c07Coder(r, st.kind, st.d, st.p, c.G)
+				if !ok {
+					return
+				}
+				orig := c07Data(r.Seed+int64(rot), st.d, c.Len)
+				parity := coder.GenerateParity(orig)
+				missD := make([]bool, st.d)
+				for _, i := range st.md {
+					missD[i] = true
+				}
+				missP := make([]bool, st.p)
+				for i := range missP {
+					missP[i] = true
+				}
+				for _, i := range st.ap {
+					missP[i] = false
+				}
+				c07Try(r, coder, st.kind, st.d, st.p, orig, parity, missD, missP)
+			}
+		}
+		c07CheckPrev(r, "end of the history")
+		r.AddStates(len(steps) * (c.K + 1))
+		r.Outcome("history")
+		r.NontrivialCase()
 	case "limits":
 		type lim struct {
 			kind  string
@@ -617,7 +680,7 @@ func init() {
 	core.Register(&core.Prop{
 		ID:    "C07",
 		Level: "model_checking",
-		Rule: "bounded-exhaustive erasure patterns: both coders x every (d<=6,p<=5) (thorough d<=8,p<=6) x EVERY subset of missing data shards x EVERY subset of missing parity shards x shard length {2,4,14,16,18,32,34,66} x goroutines {1,2,3,5}; Vandermonde parity also compared with the reference sum; the widest Cauchy codes (65533+2, 2+65533, 65532+3) with two lost data shards / two available parity rows whose indices differ by each power of two; structured large code (140,260): 2-erasures with only parity rows {0,e} available for every e (contains the construction's singular pairs), and 3-erasures built on every column pair whose 2x2 minor vanishes (zero pivots, i.e. row swaps during elimination) x every third column x three row sets; 3-erasures on columns that agree modulo q under rows 65535/q and neighbours (q = 3, 5, 17, 257; singular systems met right after a row swap); tight patterns on (8,12),(5,12),(3,14) (thorough more): every k-subset of missing data x every k-subset of surviving parity; Cauchy (140,20); the documented limits (incl. 32768 / 32767 / 257 / 256 data shards with 3 parity rows and 65535 parity rows for 1, 3 and 5 data shards: the highest rows are compared with the definition and used for reconstruction). " +
+		Rule: "bounded-exhaustive erasure patterns: both coders x every (d<=6,p<=5) (thorough d<=8,p<=6) x EVERY subset of missing data shards x EVERY subset of missing parity shards x shard length {2,4,14,16,18,32,34,66} x goroutines {1,2,3,5}; Vandermonde parity also compared with the reference sum; after every call the shards restored by the previous successful call are compared again (also across cases of a worker process), and call histories that start with a failure on a singular system; the widest Cauchy codes (65533+2, 2+65533, 65532+3) with two lost data shards / two available parity rows whose indices differ by each power of two; structured large code (140,260): 2-erasures with only parity rows {0,e} available for every e (contains the construction's singular pairs), and 3-erasures built on every column pair whose 2x2 minor vanishes (zero pivots, i.e. row swaps during elimination) x every third column x three row sets; 3-erasures on columns that agree modulo q under rows 65535/q and neighbours (q = 3, 5, 17, 257; singular systems met right after a row swap); tight patterns on (8,12),(5,12),(3,14) (thorough more): every k-subset of missing data x every k-subset of surviving parity; Cauchy (140,20); the documented limits (incl. 32768 / 32767 / 257 / 256 data shards with 3 parity rows and 65535 parity rows for 1, 3 and 5 data shards: the highest rows are compared with the definition and used for reconstruction). " +
 			"Oracle: too few parity => NotEnoughParityShardsError; Cauchy always exact; Vandermonde exact iff the reference determinant of (lowest available rows x missing columns) != 0, else error or exact; nil => exact; supplied data shards unchanged; the shard lists are windows into longer lists, whose entries behind the window must not change; whenever the highest parity shards are unavailable the call is repeated with the parity list cut off behind the last available shard, as a window with non-nil entries behind it, and must give the same outcome. non-trivial = every case (all contain reconstructions)",
 		Assumptions: []string{"the statement does not constrain supplied parity shards; they are not compared"},
 		NewCase:     func() interface{} { return &c07Case{} },
